@@ -148,7 +148,7 @@ def evaluate(e, env):
         elif op == 'call:copysign':
             a, b = rec(n.args[0]), rec(n.args[1])
             m = a.abs()
-            r = m if b.lo >= 0 else (-m if b.hi < 0 else m.hull(-m))
+            r = m if b.lo >= 0 else (-m if b.hi <= 0 else m.hull(-m))
         elif op == 'call:libm_ln': r = i_ln(rec(n.args[0]))
         elif op == 'call:libm_log10': r = i_log10(rec(n.args[0]))
         elif op == 'call:libm_exp': r = i_exp(rec(n.args[0]))
@@ -308,7 +308,7 @@ def evaluate_d(e, x, box):
         elif op == 'call:copysign':
             (a, da), (b, db) = rec(n.args[0]), rec(n.args[1])
             m = a.abs(); dm = da if a.lo >= 0 else (-da if a.hi <= 0 else da.hull(-da))
-            r = (m, dm) if b.lo >= 0 else ((-m, -dm) if b.hi < 0 else (m.hull(-m), dm.hull(-dm)))
+            r = (m, dm) if b.lo >= 0 else ((-m, -dm) if b.hi <= 0 else (m.hull(-m), dm.hull(-dm)))
         else:
             raise Unsupported(f"interval derivative of {op}")
         cache[n.id] = r
